@@ -1,10 +1,243 @@
 /-
-  TwProofs.C04 — property theorems (see DESIGN.md, section 6).
+  TwProofs.C04 — variables are block scoped and type stable; `loop` is reserved.
+
+  The environment of the model is a list of scopes (innermost first), a transcription of
+  `object.Env`.  The theorems: what `Set` refuses (the reserved name, a change of type — looked
+  up through all visible scopes), what it does (writes the innermost scope only), that lookups
+  see through nested scopes, and that every scoped construct (`@if`, `@for`, `@each`,
+  `@component`) hands back exactly the environment it was given, so nothing bound or assigned
+  inside is visible after it.
 -/
 import TwModel
 import TwSpec
+import TwProofs.Lemmas.EvalStep
 
 namespace Tw.C04
 open Tw
+
+/-! ### maps -/
+
+theorem mapGet_mapSet_same {α} (m : List (Bytes × α)) (k : Bytes) (v : α) : mapGet (mapSet m k v) k = some v := by
+  induction m with
+  | nil => simp [mapSet, mapGet]
+  | cons x r ih =>
+    obtain ⟨k', v'⟩ := x
+    unfold mapSet
+    split
+    · simp [mapGet]
+    · rename_i hne
+      simp only [mapGet, hne, Bool.false_eq_true, if_false]
+      exact ih
+
+theorem mapGet_mapSet_other {α} (m : List (Bytes × α)) (k k2 : Bytes) (v : α) (h : k2 ≠ k) :
+    mapGet (mapSet m k v) k2 = mapGet m k2 := by
+  induction m with
+  | nil =>
+    have : (k == k2) = false := by simpa using fun e => h e.symm
+    simp [mapSet, mapGet, this]
+  | cons x r ih =>
+    obtain ⟨k', v'⟩ := x
+    unfold mapSet
+    split
+    · rename_i heq
+      have hk : k' = k := by simpa using heq
+      have h1 : (k == k2) = false := by simpa using fun e => h e.symm
+      have h2 : (k' == k2) = false := by rw [hk]; exact h1
+      simp [mapGet, h1, h2]
+    · simp only [mapGet]
+      split
+      · rfl
+      · exact ih
+
+/-! ### `loop` is reserved -/
+
+/-- the name `loop` can never be assigned, whatever the environment and the value -/
+theorem loop_is_reserved (env : Env) (v : Val) : env.set (b "loop") v = .error ("ErrLoopVariableIsReserved", []) := by
+  simp [Env.set]
+
+/-- nor supplied as data -/
+theorem loop_not_accepted_as_data (g : GoVal) (v : Val) (h : nativeToObject g = some v) :
+    envFromMap [(b "loop", g)] = .error (.setErr "ErrLoopVariableIsReserved" []) := by
+  simp [envFromMap, sortByKey, insertByKey, envFromMap.go, h, Env.set]
+
+/-- assignment statements and loop variables go through `Set` (`setVar`), so they fail the same way -/
+theorem assign_loop_fails (f : Nat) (c : Ctx) (env : Env) (t : Token) (e : Expr) (v : Val)
+    (he : evalExpr f c env e = .ok v) :
+    evalStmt (f + 1) c env (.assign t (b "loop") e) = .err "ErrLoopVariableIsReserved" t.errorLine [] := by
+  rw [evalStmt_succ]
+  simp only [stmtBody, calleesAt_expr]
+  rw [he, Res.bind_ok]
+  simp [setVar, loop_is_reserved]
+
+/-! ### type stability -/
+
+/-- a visible name (in any enclosing scope) is never re-bound with a value of another type -/
+theorem type_change_is_refused (env : Env) (k : Bytes) (old v : Val) (hk : k ≠ b "loop")
+    (hget : env.get k = some old) (hty : old.type ≠ v.type) :
+    env.set k v = .error ("ErrVariableTypeMismatch", [k, old.typeName, v.typeName]) := by
+  have h1 : (k == b "loop") = false := by simpa using hk
+  have h2 : (old.type != v.type) = true := by simpa using hty
+  simp [Env.set, h1, hget, h2]
+
+/-- … and a re-assignment with the same type, or a new name, writes the innermost scope only -/
+theorem set_writes_innermost (s : List (Bytes × Val)) (outer : Env) (k : Bytes) (v : Val) (env' : Env)
+    (h : Env.set (s :: outer) k v = .ok env') : env' = mapSet s k v :: outer := by
+  unfold Env.set at h
+  split at h
+  · cases h
+  · split at h
+    · split at h
+      · cases h
+      · cases h; rfl
+    · cases h; rfl
+
+theorem get_after_set (env : Env) (k : Bytes) (v : Val) (env' : Env) (h : env.set k v = .ok env') :
+    env'.get k = some v := by
+  cases env with
+  | nil =>
+    unfold Env.set at h
+    split at h
+    · cases h
+    · simp only [Env.get] at h
+      cases h
+      simp [Env.get, mapGet]
+  | cons s outer =>
+    rw [set_writes_innermost s outer k v env' h]
+    simp [Env.get, mapGet_mapSet_same]
+
+theorem get_other_after_set (s : List (Bytes × Val)) (outer : Env) (k k2 : Bytes) (v : Val) (env' : Env)
+    (h : Env.set (s :: outer) k v = .ok env') (hne : k2 ≠ k) : env'.get k2 = Env.get (s :: outer) k2 := by
+  rw [set_writes_innermost s outer k v env' h]
+  simp [Env.get, mapGet_mapSet_other _ _ _ _ hne]
+
+/-- the statement form: re-assigning a visible name with another type fails the render -/
+theorem assign_type_mismatch (f : Nat) (c : Ctx) (env : Env) (t : Token) (name : Bytes) (e : Expr) (old v : Val)
+    (hk : name ≠ b "loop") (he : evalExpr f c env e = .ok v) (hget : env.get name = some old) (hty : old.type ≠ v.type) :
+    evalStmt (f + 1) c env (.assign t name e) =
+      .err "ErrVariableTypeMismatch" t.errorLine [name, old.typeName, v.typeName] := by
+  rw [evalStmt_succ]
+  simp only [stmtBody, calleesAt_expr]
+  rw [he, Res.bind_ok]
+  simp [setVar, type_change_is_refused env name old v hk hget hty]
+
+/-! ### scopes -/
+
+/-- a nested block sees everything the enclosing blocks see -/
+theorem nested_block_sees_outer (env : Env) (k : Bytes) : env.push.get k = env.get k := by
+  simp [Env.push, Env.get, mapGet]
+
+/-- an assignment inside a nested block leaves the enclosing scopes untouched -/
+theorem nested_assignment_is_local (env : Env) (k : Bytes) (v : Val) (env' : Env) (h : env.push.set k v = .ok env') :
+    env' = [(k, v)] :: env := by
+  have := set_writes_innermost [] env k v env' h
+  simpa [mapSet] using this
+
+theorem bind_ok_inv {α β} {r : Res α} {g : α → Res β} {y : β} (h : r.bind g = .ok y) : ∃ a, r = .ok a ∧ g a = .ok y := by
+  cases r with
+  | ok a => exact ⟨a, rfl, by simpa using h⟩
+  | err a l as => simp at h
+  | panic w => simp at h
+  | oof => simp at h
+
+/-- **scoped constructs restore the environment**: whatever happens inside an `@if`, `@for`,
+    `@each` or `@component` (assignments, loop variables, `loop`, component arguments), the
+    environment after the construct is the one before it -/
+theorem scoped_constructs_restore_env (f : Nat) (c : Ctx) (env env' : Env) (s : Stmt) (o : Out)
+    (hs : (match s with | .ifS .. | .forS .. | .eachS .. | .component .. => true | _ => false) = true)
+    (h : evalStmt (f + 1) c env s = .ok (o, env')) : env' = env := by
+  have elseIfs_env : ∀ (alts : List (Expr × List Stmt)) (alt : Option (List Stmt)) (g : Nat) (o : Out) (e' : Env),
+      evalElseIfs g c env alts alt = .ok (o, e') → e' = env := by
+    intro alts
+    induction alts with
+    | nil =>
+      intro alt g o e' h
+      cases g with
+      | zero => simp [evalElseIfs] at h
+      | succ g =>
+        rw [evalElseIfs_nil] at h
+        cases alt with
+        | none => simp at h; exact h.2.symm
+        | some ab =>
+          simp only [] at h
+          obtain ⟨a, _, ha⟩ := bind_ok_inv h
+          simp at ha; exact ha.2.symm
+    | cons p rest ih =>
+      intro alt g o e' h
+      cases g with
+      | zero => simp [evalElseIfs] at h
+      | succ g =>
+        obtain ⟨ce, body⟩ := p
+        rw [evalElseIfs_cons] at h
+        obtain ⟨v, _, hv⟩ := bind_ok_inv h
+        split at hv
+        · obtain ⟨a, _, ha⟩ := bind_ok_inv hv
+          simp at ha; exact ha.2.symm
+        · exact ih alt g o e' hv
+  rw [evalStmt_succ] at h
+  cases s with
+  | ifS t cnd cons alts alt =>
+    simp only [stmtBody, calleesAt_expr, calleesAt_block, calleesAt_elseIfs] at h
+    obtain ⟨v, _, hv⟩ := bind_ok_inv h
+    split at hv
+    · obtain ⟨a, _, ha⟩ := bind_ok_inv hv
+      simp at ha; exact ha.2.symm
+    · exact elseIfs_env alts alt f o env' hv
+  | forS t init cnd post body alt =>
+    simp only [stmtBody] at h
+    obtain ⟨env1, _, h1⟩ := bind_ok_inv h
+    obtain ⟨entry, _, h2⟩ := bind_ok_inv h1
+    split at h2
+    · obtain ⟨a, _, ha⟩ := bind_ok_inv h2
+      simp at ha; exact ha.2.symm
+    · cases alt with
+      | none => simp at h2; exact h2.2.symm
+      | some ab =>
+        simp only [] at h2
+        obtain ⟨a, _, ha⟩ := bind_ok_inv h2
+        simp at ha; exact ha.2.symm
+  | eachS t var arrE body alt =>
+    simp only [stmtBody] at h
+    obtain ⟨av, _, h1⟩ := bind_ok_inv h
+    cases av with
+    | arr xs =>
+      simp only [] at h1
+      split at h1
+      · cases alt with
+        | none => simp at h1; exact h1.2.symm
+        | some ab =>
+          simp only [] at h1
+          obtain ⟨a, _, ha⟩ := bind_ok_inv h1
+          simp at ha; exact ha.2.symm
+      · obtain ⟨a, _, ha⟩ := bind_ok_inv h1
+        simp at ha; exact ha.2.symm
+    | _ => simp at h1
+  | component t name arg cid =>
+    simp only [stmtBody] at h
+    split at h
+    · simp at h
+    · obtain ⟨kvs, _, h1⟩ := bind_ok_inv h
+      obtain ⟨e1, _, h2⟩ := bind_ok_inv h1
+      obtain ⟨a, _, ha⟩ := bind_ok_inv h2
+      simp at ha; exact ha.2.symm
+  | _ => simp at hs
+
+/-- the loop variable is bound with `Set`: an element whose type differs from a visible variable
+    of that name fails the render (it never retypes the variable) -/
+theorem each_variable_type_mismatch (env : Env) (var : Bytes) (old x : Val) (line : Nat) (hk : var ≠ b "loop")
+    (hget : env.get var = some old) (hty : old.type ≠ x.type) :
+    setVar env var x line = .err "ErrVariableTypeMismatch" line [var, old.typeName, x.typeName] := by
+  simp [setVar, type_change_is_refused env var old x hk hget hty]
+
+/-! ### end-to-end instances -/
+
+example : (match evaluateStringPure [] (b "{{ x = 1 }}@if(true){{ x = 2 }}{{ y = 5 }}{{ x }}@end{{ x }}") [] with
+    | .ok out => out == b "21" | _ => false) = true := by decide +kernel
+
+example : (match evaluateStringPure [] (b "{{ x = 1 }}@if(true){{ x = \"s\" }}@end") [] with
+    | .fail f => f.msg == formatMsg "ErrVariableTypeMismatch" [b "x", b "INTEGER", b "STRING"] | _ => false) = true := by
+  decide +kernel
+
+example : (match evaluateStringPure [] (b "@each(v in [1])x@end{{ v }}") [] with
+    | .fail f => f.msg == formatMsg "ErrIdentifierNotFound" [b "v"] | _ => false) = true := by decide +kernel
 
 end Tw.C04
